@@ -7,6 +7,12 @@ CHECKS = {
   "Every string over five JSON-critical alphabet views up to a length bound, name grids around the 64-name/1KiB namespace switch with a duplicate at every ordered pair, and the one-byte edit ball around every small valid text, x 4 Allow* option sets x 5 entry points, are executed on the real code and compared with the reference recognizer (iff). Exhaustive within the stated bounds; says nothing about longer inputs or bytes outside the alphabets.",
   "Trusted: reference recognizer internal/refjson (itself cross-checked against encoding/json.Valid on every enumerated string), Go runtime.", "2/C01"),
 }
+CHECKS["C06"] = ("model_checking", "explicit-state exploration of the real Encoder against a reference model (all call sequences to depth d, then state-merged BFS)",
+  "Every WriteToken/WriteValue sequence up to a length bound over a 34-op alphabet (valid, invalid, duplicate-producing tokens and raw values) x 12 option sets is executed on a fresh real Encoder and compared with the reference encoder model after EVERY call: accept/reject, error type, OutputOffset, StackDepth, StackIndex at all levels, StackPointer and delivered bytes (exact at depth 0). A rejected call is a model no-op, so agreement afterwards is the no-effect clause. Then BFS over model states with several histories per state. Exhaustive within the stated depth; depth-10000 is C20's.",
+  "Trusted: reference encoder model internal/refjson/encmodel.go (formatting rules taken from the option docs) and recognizer; Go runtime.", "2/C06")
+CHECKS["C12"] = ("exploration", "bounded-exhaustive input x option-configuration enumeration against metamorphic laws and a reference value tree",
+  "Every string of the alphabet views x {none, each formatting option singly, explicit-false variants, all pairs of 9 interacting options} x {Format, AppendFormat (also with overlapping dst/src), Compact, Indent, Canonicalize}, the full 2^13 option product on an option-sensitive corpus, and a reorder stress family. Oracle: success iff valid under the effective options; output valid; same tree (numbers by value only under Canonicalize*, order ignored only under Reorder); number/string spellings kept where the statement says so; fixed point; unmodified on error; no reallocation when already formatted.",
+  "Trusted: reference recognizer/value tree internal/refjson; strconv.ParseFloat.", "2/C12")
 NOT_YET = {}
 def main():
     props=[json.loads(l)["id"] for l in open("properties.jsonl")]
